@@ -1590,7 +1590,7 @@ impl Property for C15 {
     type Scenario = Scenario;
 
     fn rule() -> String {
-        "two families. PORTS (70%): 1-2 hosts with an ephemeral range of 3-8 ports (incl. ranges ending at 65535), fixed latency 0-3 ticks, IPv4/IPv6; seeded sequences of 4-40 operations executed one at a time: UDP bind / TCP listener bind (port 0 or fixed, inside and outside the range, wildcard or localhost), connect to a live listener (accepted by its host; same host via own address or 127.0.0.1, other host by IP or name), connect refused (no listener), connect cancelled by timeout, one-byte writes, drops, crash+bounce (downtime 0-3 steps). Reference model = set of ports in use per host (UDP binds, TCP binds, local ports of live stream objects): every port handed out for port 0 or an outgoing connect lies in the range and is not in use at that instant; a fixed bind fails with AddrInUse exactly when a live socket of the same protocol holds the port (so dropped and crashed ports are bindable again, and a listener bind is not blocked by a stream's port or the other protocol); 'ports exhausted' is a violation while the model has a free port; after every operation the hook's UDP/TCP bind counts equal the model's and the stream table never has more entries than live stream objects (equal when no reset is possible). NAMES (30%): 1-600 names looked up in seeded orders through Sim::lookup (&str/String), turmoil::lookup from inside a host, reverse_lookup, literal addresses (IpAddr/Ipv4Addr/Ipv6Addr/string), lookup_many(regex), Sim::host registration, lookup_host: same name => same address, different names => different addresses, all inside 192.168.0.0/16 resp. fe80::/64, reverse_lookup inverts, literals resolve to themselves, a regex resolves to exactly the registered names it matches. Non-trivial: the ephemeral cursor wrapped at least once (ports) / >=2 names and a repeated lookup (names); distinct = digest of (op kind, outcome kind) sequences".into()
+        "two families. PORTS (70%): 1-2 hosts with an ephemeral range of 3-8 ports (incl. ranges ending at 65535), fixed latency 0-3 ticks, IPv4/IPv6; seeded sequences of 4-40 operations executed one at a time: UDP bind / TCP listener bind (port 0 or fixed, inside and outside the range, wildcard or localhost), connect to a live listener (accepted by its host; same host via own address or 127.0.0.1, other host by IP or name), connect refused (no listener), connect cancelled by timeout, one-byte writes, drops, crash+bounce (downtime 0-3 steps). Reference model = set of ports in use per host (UDP binds, TCP binds, local ports of live stream objects): every port handed out for port 0 or an outgoing connect lies in the range and is not in use at that instant; a fixed bind fails with AddrInUse exactly when a live socket of the same protocol holds the port (so dropped and crashed ports are bindable again, and a listener bind is not blocked by a stream's port or the other protocol); 'ports exhausted' is a violation while the model has a free port; after every operation the hook's UDP/TCP bind counts equal the model's and the stream table never has more entries than live stream objects (equal when no reset is possible). NAMES (30%): 1-600 names looked up in seeded orders through Sim::lookup (&str/String), turmoil::lookup from inside a host, reverse_lookup, literal addresses (IpAddr/Ipv4Addr/Ipv6Addr/string), lookup_many(regex), Sim::host registration, lookup_host: same name => same address, different names => different addresses, all inside 192.168.0.0/16 resp. fe80::/64, reverse_lookup inverts, literals resolve to themselves, a regex resolves to exactly the registered names it matches. Non-trivial: the ephemeral cursor wrapped at least once (ports) / >=2 names and a repeated lookup (names); distinct = digest of (op kind, outcome kind) sequences. Added later: plain-name regexes that match several names; connects to unowned addresses; literal text forms fe80::/fd00::/::1; reverse lookups of addresses the DNS never handed out (loopback, other prefixes, small host numbers): an answer must name a name that maps back to the address.".into()
     }
     fn components_real() -> Vec<&'static str> {
         vec!["turmoil: Host::assign_ephemeral_port, Udp/Tcp bind tables and stream table (host.rs), net::UdpSocket::bind, net::TcpListener::bind/accept, net::TcpStream::connect/drop, Sim::crash/bounce, Dns (dns.rs, ip.rs): Sim::lookup/reverse_lookup/lookup_many, turmoil::lookup/reverse_lookup/lookup_many, net::lookup_host; hook Sim::verif_host_table_counts"]
